@@ -72,7 +72,8 @@ def _verify_one(args):
             res = ex.verify(key)
             out = [r.to_json() for r in res]
             return {'task': key, 'kind': kind, 'results': out, 'sha': ex.fn_hashes,
-                    'wall_s': time.time() - t0, 'solver': dict(solve.stats), 'paths': ex.paths}
+                    'wall_s': time.time() - t0, 'solver': dict(solve.stats), 'paths': ex.paths,
+                    'hints': dict(getattr(ex, 'hint_log', {}))}
         else:
             fn = registry.lemma(key)
             out = fn(repo)
@@ -96,6 +97,21 @@ def run_deductive(pid, workers, tier='quick'):
     with ctx.Pool(min(workers, len(jobs))) as p:
         outs = p.map(_verify_one, jobs, chunksize=1)
     obs = []
+    if os.environ.get('VERIF_WRITE_HINTS'):
+        # developer switch: record which back end discharged the slow obligations of this run
+        hp = os.path.join(VERIF, 'contracts', 'BACKEND_HINTS.json')
+        try:
+            hints = json.load(open(hp))
+        except (OSError, ValueError):
+            hints = {}
+        fns = {o['task'].split(':')[1] for o in outs if o.get('kind') == 'pyvc'}
+        hints = {k: v for k, v in hints.items() if k.split(':')[0] not in fns}
+        for o in outs:
+            hints.update(o.get('hints') or {})
+        json.dump(hints, open(hp, 'w'), indent=1, sort_keys=True)
+    if os.environ.get('VERIF_TIMING'):
+        for o in sorted(outs, key=lambda o: -o.get('wall_s', 0))[:8]:
+            print('TIMING %-70s %6.1fs %d paths' % (o['task'], o.get('wall_s', 0), o.get('paths', 0)))
     for o in outs:
         for r in o['results']:
             props = r.get('props')
